@@ -431,7 +431,23 @@ func c09Consequences(p *Plan, res *Result, m *c09Model) *common.Fail {
 	}
 	firstReqOfEpoch := map[int]bool{}
 	lastTag := noTag
+	lastSeq, lastEpoch := -1, -1
+	succeeded := map[int]bool{}
 	for i, e := range evs {
+		if e.K == "send<" && e.Err == "" {
+			succeeded[e.Tag] = true
+		}
+		if e.K == "out" && e.Svc == "TunnelReq" && !p.Cfg.TCP {
+			// having restarted at 0 the numbering counts on from there: within an epoch the request behind one whose Send
+			// succeeded carries the next number
+			if ei := epochOf(e.T); ei >= 0 && (m.epochs[ei].e < 0 || e.T < m.epochs[ei].e) {
+				if ei == lastEpoch && e.Tag != lastTag && lastTag != noTag && succeeded[lastTag] && e.Seq != (lastSeq+1)%256 {
+					return failTrace(evs, i, "counter-restarted", "the request for tag %d carries sequence number %d; the request before it on this connection (tag %d, number %d) was acknowledged and its Send returned nil, so number %d is due - the epoch began at %s",
+						e.Tag, e.Seq, lastTag, lastSeq, (lastSeq+1)%256, ms(m.epochs[ei].s))
+				}
+				lastSeq, lastEpoch = e.Seq, ei
+			}
+		}
 		if e.K == "out" && e.Svc == "TunnelReq" {
 			ei := epochOf(e.T)
 			if ei < 0 {
@@ -648,6 +664,38 @@ func genPlanC09(rt *rapid.T) *Plan {
 			}
 		}
 		p.Gw = append(p.Gw, g)
+	}
+	if !c.TCP && rapid.IntRange(0, 5).Draw(rt, "idle-epochs") == 0 {
+		// connections that come and go without the application sending anything (the gateway ends 2..4 of them in a row,
+		// every reconnect succeeds), then 3..5 Sends on the last one, all acknowledged: the numbering restarted at 0
+		// once per connection and counts on from there
+		p.Gw, p.Hb, p.Conn = nil, nil, []Fate{okFate(1337)}
+		p.DefHb, p.DefAck = okFate(337), okFate(137)
+		k := rapid.IntRange(2, 4).Draw(rt, "idle-epoch-count")
+		at := 0
+		for i := 0; i < k; i++ {
+			gap := rapid.IntRange(3, 40).Draw(rt, "idle-gap")*1000 + 211
+			at += gap
+			p.Gw = append(p.Gw, GwStep{AfterUs: gap, Kind: "discreq", Chan: "cur"})
+		}
+		var lane []AppStep
+		if rapid.Bool().Draw(rt, "send-before") {
+			lane = append(lane, AppStep{AfterUs: 700, Tag: 1})
+			at -= 700
+		}
+		first := true
+		for i := 0; i < rapid.IntRange(3, 5).Draw(rt, "sends-after"); i++ {
+			st := AppStep{AfterUs: rapid.IntRange(1, 20).Draw(rt, "send-gap")*1000 + 100, Tag: 10 + i}
+			if first {
+				st.AfterUs += at + 5000
+				first = false
+			}
+			lane = append(lane, st)
+		}
+		p.Senders = [][]AppStep{lane}
+		p.Consumer = []ConStep{{AfterUs: 50, Kind: "drain"}}
+		p.TailUs = 2000
+		return p
 	}
 	ns := rapid.IntRange(0, 4).Draw(rt, "sends")
 	var lane []AppStep
